@@ -13,6 +13,7 @@ Property theorems only; helper lemmas live in `Gsu/Proofs/Pack.lean`. The defini
 import Gsu.Proofs.Pack
 import Gsu.Proofs.PackUnpack
 import Gsu.Proofs.PackRound
+import Gsu.Proofs.PackTree
 import Gsu.Gen.Pack
 namespace Gsu.Props.C13
 open Gsu.Proto Gsu.Pack
@@ -144,9 +145,9 @@ Proved in full (developments in `Gsu/Proofs/PackDigits.lean`, `PackUnpack.lean`,
 normalised finite number: itself, or the int64 of equal value exactly on `intable`'s path),
 `packDnum_unpack_exact` (exactly when which), `number_roundtrip` (through `Unpack`'s tag
 dispatch), `packDnum_unpack_bigexp`.
-Not (yet) a theorem here — tied by replay and by the direct oracles `rt-*` over nested values:
-  container_roundtrip : unpackObj (packObj tag list named) = some (list, named)
-(`container_roundtrip_partial` below is two decided instances). -/
+Containers (`Gsu/Proofs/PackContainer.lean`, `PackTree.lean`): `container_roundtrip` (one framing
+level, every member list), `container_roundtrip_nested` (every tree of packed values up to the
+nesting limit, by induction over the tree). -/
 
 /-- Equal scalars, identical bytes: an integer of at most 16 digits packs to the same bytes as
 SuInt64 (`packInt`) and as smi / integer-valued SuDnum (`FromInt` + `SuDnum.Pack`). -/
@@ -224,10 +225,51 @@ theorem packDnum_unpack_instances :
     unpackNumber (packDnum ⟨0, 0, 0⟩) = .int 0 := by
   decide
 
-theorem container_roundtrip_partial :
+/-! ## round trip of containers -/
+
+/-- FULL container round trip, one framing level: for EVERY list of packed members and every list
+of packed key/value pairs, `unpackObject` on the output of `SuObject.pack` returns exactly these
+members (varint counts, varint-length framed members, the one-byte form of the empty container).
+The only side conditions are that the counts and member lengths fit the 10 byte varint (below
+2^70; a Go `int` always is). Members are arbitrary byte strings — scalars or packed containers. -/
+theorem container_roundtrip (tag : UInt8) (list : List Bytes) (named : List (Bytes × Bytes))
+    (hl : list.length < 128 ^ 10) (hn : named.length < 128 ^ 10)
+    (hml : ∀ m ∈ list, m.length < 128 ^ 10)
+    (hmn : ∀ kv ∈ named, kv.1.length < 128 ^ 10 ∧ kv.2.length < 128 ^ 10) :
+    unpackObj (packObj tag list named) = some (list, named) :=
+  Gsu.Pack.unpackObj_packObj tag list named hl hn hml hmn
+
+-- the former `container_roundtrip_partial` instances (2-byte varint member, empty member, empty record)
+example :
     unpackObj (packObj tagObject [[3, 129, 10], [], packStr [97, 98]] [(packStr [107], [3])]) =
       some ([[3, 129, 10], [], packStr [97, 98]], [(packStr [107], [3])]) ∧
     unpackObj (packObj tagRecord [] []) = some ([], []) := by
+  decide
+
+/-- FULL nested round trip, by induction over the tree with the nesting limit: a tree of values
+(leaves = packed scalars, i.e. bytes not starting with the object/record tag; nodes = objects or
+records with list and named members, keys included) packed bottom-up with `packObj` and unpacked
+top-down with `unpackObj` comes back as the same tree, for every tree of at most `nestingLimit`
+(= 16, regenerated) container levels — the trees `packSize` accepts. `packTree`/`unpackTree`
+(`Gsu/Proofs/PackTree.lean`) only compose the model's one-level functions along the tree. -/
+theorem container_roundtrip_nested (t : PTree) (ok : TreeOK t)
+    (hd : depth t ≤ Gsu.Gen.Pack.nestingLimit) :
+    unpackTree Gsu.Gen.Pack.nestingLimit (packTree t) = some t :=
+  Gsu.Pack.tree_roundtrip_limit t ok hd
+
+/-- the same with any budget of container levels that covers the tree; a deeper tree is refused -/
+theorem container_roundtrip_depth (t : PTree) (b : Nat) (ok : TreeOK t) :
+    (depth t ≤ b → unpackTree b (packTree t) = some t) ∧
+    (b < depth t → unpackTree b (packTree t) = none) :=
+  ⟨Gsu.Pack.unpackTree_packTree t b ok, Gsu.Pack.unpackTree_overflow t b ok⟩
+
+-- non-vacuity: a record inside an object inside an object, with a named member whose key is a string
+example : TreeOK (.node false (.cons (.node false (.cons (.node true .nil
+      (.cons (.leaf (packStr [107])) (.leaf [3, 129, 10]) .nil)) .nil) .nil) (.cons (.leaf []) .nil)) .nil) ∧
+    depth (.node false (.cons (.node false (.cons (.node true .nil
+      (.cons (.leaf (packStr [107])) (.leaf [3, 129, 10]) .nil)) .nil) .nil) (.cons (.leaf []) .nil)) .nil) = 3 := by
+  refine ⟨?_, by decide⟩
+  simp only [TreeOK, ListOK, NamedOK, PList.length, PNamed.length]
   decide
 
 /-! ## round trip: strings, booleans, dates, timestamps -/
